@@ -21,6 +21,7 @@ WHAT = {
     "C12:error-path-leaves-mapping": "after newSession returned an error the process still maps the session's shared memory",
     "C12:error-path-leaves-file": "after newSession returned an error the session's /dev/shm file is still there",
     "C12:error-path-leaves-memfd-descriptor": "after newSession returned an error the client's memfd is still open",
+    "C12:handshake-call-does-not-return-within-the-timeout": "newSession / Server did not return — neither success nor error — within InitializeTimeout plus a generous slack: the peer's fault script (silent from the first byte, stopped inside a header, or later) is in the replay",
     "C12:failed-handshake-releases-sibling-session-memory": "a session establishment that FAILED took the shared buffer memory away from an ESTABLISHED sibling session on the same buffer path (table reference count / mapping / file changed, or the sibling stopped working)",
     "C12:failed-handshake-leaves-stale-registry-entry": "after a failed handshake (no other user of the path) the process-wide buffer-manager table still holds an entry for the path",
     "C12:establishment-after-failed-handshake-has-no-mapped-memory": "a new establishment on the path of an earlier failed handshake reports success but the buffer memory is not mapped / does not carry data",
@@ -112,7 +113,8 @@ def run_harness(n, seed, tag, rounds=1):
     outp = os.path.join(core.WORK, "c12_%s_%d.jsonl" % (tag, os.getpid()))
     scratch = os.path.join(core.WORK, "c12scr_%d" % os.getpid())
     rc, out, secs = core.go_test(PROP, "^TestVerif_C12$", {"VERIF_OUT": outp, "VERIF_N": str(n), "VERIF_SEED": str(seed),
-                                                         "VERIF_ROUNDS": str(rounds), "VERIF_SCRATCH": scratch}, timeout=900)
+                                                         "VERIF_ROUNDS": str(rounds), "VERIF_SCRATCH": scratch},
+                                 timeout=300 if rounds <= 3 else 900)
     shutil.rmtree(scratch, ignore_errors=True)
     if rc != 0 or not os.path.exists(outp):
         return None, "harness failed (rc=%d): %s" % (rc, out[-2500:])
@@ -175,7 +177,11 @@ def check(run):
         else:
             run.add_oracle_failure(m, WHAT.get(m, m), brief(c))
     long_codec = [c for c in cases if c["kind"] == "codec" and (len(c["q"]) > 5000 or len(c["b"]) > 5000)]
-    short = [c for c in cases if not (c["kind"] == "codec" and (len(c["q"]) > 5000 or len(c["b"]) > 5000)) and c["kind"] != "census"]
+    short = [c for c in cases if not (c["kind"] == "codec" and (len(c["q"]) > 5000 or len(c["b"]) > 5000))
+             and c["kind"] not in ("census", "source", "sibling") and c.get("class") != 4 and "C12:handshake-call-does-not-return-within-the-timeout" not in (c.get("oracle") or [])]
+    for c in cases:
+        if c["kind"] == "source" and c.get("err"):
+            run.add_corr_break("G: session.go initProtocol no longer has the modelled shape (timer armed, then the goroutine that selects and runs the initializer, select on result/timer): " + c["err"], brief(c))
     if cases:
         try:
             bad = eval_cases(short, run.tier)
